@@ -53,6 +53,8 @@ pub struct IncCfg {
     /// the corruption is applied while the first client is in the middle of a call (only
     /// termination of client calls is judged in such a run)
     pub under_reader: bool,
+    /// start this incarnation only once the first client has completed this many calls
+    pub wait_calls: u32,
 }
 
 #[derive(Clone, Debug)]
@@ -76,6 +78,8 @@ pub struct ReaderCfg {
     /// long sleeper: publications the writer makes back-to-back before its first pause (the
     /// reader's first call races with them when > 1)
     pub burst: u32,
+    /// extra back-to-back calls right after the first one (long histories of one client)
+    pub hammer: u32,
 }
 
 #[derive(Clone, Debug)]
@@ -100,6 +104,8 @@ pub struct ACfg {
     pub script: Vec<(usize, u32)>,
     /// directed preemptions (thread, store?, location, nth access, thread to run, for how many points)
     pub preempts: Vec<(usize, bool, u8, u32, usize, u32)>,
+    /// index of the first record handed to write()
+    pub first_k: i64,
 }
 
 // ------------------------------------------------------------------------------------------
@@ -154,13 +160,13 @@ impl ACfg {
     pub fn to_json(&self) -> Value {
         json!({
             "weak": self.weak, "stale_ppm": self.stale_ppm, "switch_ppm": self.switch_ppm, "pct_depth": self.pct_depth,
-            "field_perm": self.field_perm, "init": corrupt_json(&self.init), "max_steps": self.max_steps, "hash_seed": self.hash_seed, "pingpong": self.pingpong, "repeat_pct": self.repeat_pct, "script": self.script.iter().map(|(t, n)| vec![*t as u64, *n as u64]).collect::<Vec<_>>(),
+            "field_perm": self.field_perm, "init": corrupt_json(&self.init), "max_steps": self.max_steps, "hash_seed": self.hash_seed, "pingpong": self.pingpong, "repeat_pct": self.repeat_pct, "first_k": self.first_k, "script": self.script.iter().map(|(t, n)| vec![*t as u64, *n as u64]).collect::<Vec<_>>(),
             "preempts": self.preempts.iter().map(|p| vec![p.0 as u64, p.1 as u64, p.2 as u64, p.3 as u64, p.4 as u64, p.5 as u64]).collect::<Vec<_>>(),
             "incs": self.incs.iter().map(|i| json!({
                 "writes": i.writes, "kill_at": i.kill_at, "io_err": i.io_err.map(|(a,b)| vec![a,b]),
-                "corrupt_before": corrupt_json(&i.corrupt_before), "gap_ns": i.gap_ns, "write_gap_ns": i.write_gap_ns, "under_reader": i.under_reader})).collect::<Vec<_>>(),
+                "corrupt_before": corrupt_json(&i.corrupt_before), "gap_ns": i.gap_ns, "write_gap_ns": i.write_gap_ns, "under_reader": i.under_reader, "wait_calls": i.wait_calls})).collect::<Vec<_>>(),
             "readers": self.readers.iter().map(|r| json!({
-                "start_ns": r.start_ns, "retry_ns": r.retry_ns, "max_open_tries": r.max_open_tries, "sleep_pubs": r.sleep_pubs, "probe_apis": r.probe_apis, "reopen_each_call": r.reopen_each_call, "burst": r.burst,
+                "start_ns": r.start_ns, "retry_ns": r.retry_ns, "max_open_tries": r.max_open_tries, "sleep_pubs": r.sleep_pubs, "probe_apis": r.probe_apis, "reopen_each_call": r.reopen_each_call, "burst": r.burst, "hammer": r.hammer,
                 "calls": r.calls.iter().map(|c| json!([c.gap_ns, c.sync_before])).collect::<Vec<_>>()})).collect::<Vec<_>>(),
         })
     }
@@ -179,6 +185,7 @@ impl ACfg {
             max_steps: u(&v["max_steps"]),
             hash_seed: u(&v["hash_seed"]),
             repeat_pct: u(&v["repeat_pct"]) as u32,
+            first_k: v["first_k"].as_i64().unwrap_or(1),
             preempts: v["preempts"].as_array().map(|a| a.iter().map(|p| (u(&p[0]) as usize, u(&p[1]) != 0, u(&p[2]) as u8, u(&p[3]) as u32, u(&p[4]) as usize, u(&p[5]) as u32)).collect()).unwrap_or_default(),
             script: v["script"].as_array().map(|a| a.iter().map(|p| (u(&p[0]) as usize, u(&p[1]) as u32)).collect()).unwrap_or_default(),
             pingpong: v["pingpong"].as_array().map(|a| a.iter().map(|x| u(x) as u32).collect()).unwrap_or_default(),
@@ -194,6 +201,7 @@ impl ACfg {
                             gap_ns: i(&x["gap_ns"]),
                             write_gap_ns: i(&x["write_gap_ns"]),
                             under_reader: x["under_reader"].as_bool().unwrap_or(false),
+                            wait_calls: x["wait_calls"].as_u64().unwrap_or(0) as u32,
                         })
                         .collect()
                 })
@@ -210,6 +218,7 @@ impl ACfg {
                             probe_apis: b(&x["probe_apis"]),
                             reopen_each_call: b(&x["reopen_each_call"]),
                             burst: u(&x["burst"]).max(1) as u32,
+                            hammer: x["hammer"].as_u64().unwrap_or(0) as u32,
                             calls: x["calls"].as_array().map(|c| c.iter().map(|p| CallCfg { gap_ns: i(&p[0]), sync_before: b(&p[1]) }).collect()).unwrap_or_default(),
                         })
                         .collect()
@@ -256,6 +265,9 @@ pub enum Profile {
     Sweep,
     /// reader sleeps through 32766/32767/32768/65534 publications (C03 wrap exception)
     Sleeper,
+    /// long histories of one writer or one client: thousands of identical updates, a million
+    /// cache hits, tens of thousands of polls during a writer outage
+    Marathon,
     /// writer dies holding an odd generation right after a reader began copying (C18)
     DeadWriter,
     /// writer updates continuously while readers retry (C18, C02)
@@ -278,6 +290,7 @@ impl Profile {
             "deadwriter" => Profile::DeadWriter,
             "busy" => Profile::Busy,
             "flood" => Profile::Flood,
+            "marathon" => Profile::Marathon,
             _ => return None,
         })
     }
@@ -293,6 +306,7 @@ impl Profile {
             Profile::DeadWriter => "deadwriter",
             Profile::Busy => "busy",
             Profile::Flood => "flood",
+            Profile::Marathon => "marathon",
         }
     }
 }
@@ -308,6 +322,7 @@ fn gen_reader(r: &mut Rng, max_calls: u32, probe: bool) -> ReaderCfg {
         probe_apis: probe,
         reopen_each_call: probe,
         burst: 1,
+        hammer: 0,
     }
 }
 
@@ -330,6 +345,7 @@ pub fn gen_config(profile: Profile, run_seed: u64, index: u64) -> ACfg {
         repeat_pct: *r.pick(&[0u32, 0, 15, 40]),
         script: Vec::new(),
         preempts: Vec::new(),
+        first_k: 1,
     };
     if r.chance(20) {
         cfg.switch_ppm = 0;
@@ -352,7 +368,7 @@ pub fn gen_config(profile: Profile, run_seed: u64, index: u64) -> ACfg {
             let busy = profile == Profile::Busy;
             for i in 0..ninc {
                 let writes = if busy { r.range(6, 14) } else { r.range(0, 6) } as u32;
-                let mut inc = IncCfg { writes, kill_at: None, io_err: None, corrupt_before: Corrupt::None, gap_ns: r.range(0, 300), write_gap_ns: if r.chance(60) { 0 } else { r.range(10, 200) }, under_reader: false };
+                let mut inc = IncCfg { writes, kill_at: None, io_err: None, corrupt_before: Corrupt::None, gap_ns: r.range(0, 300), write_gap_ns: if r.chance(60) { 0 } else { r.range(10, 200) }, under_reader: false, wait_calls: 0 };
                 if kills && (i + 1 < ninc || r.chance(50)) && r.chance(80) {
                     // bias: land inside new/wipe or inside a write
                     let total = NEW_POINTS_WIPE + writes * WRITE_POINTS + 2;
@@ -376,7 +392,7 @@ pub fn gen_config(profile: Profile, run_seed: u64, index: u64) -> ACfg {
             let ninc = r.range(1, 3) as usize;
             for i in 0..ninc {
                 let writes = r.range(0, 3) as u32;
-                let mut inc = IncCfg { writes, kill_at: None, io_err: None, corrupt_before: Corrupt::None, gap_ns: r.range(0, 300), write_gap_ns: 0, under_reader: false };
+                let mut inc = IncCfg { writes, kill_at: None, io_err: None, corrupt_before: Corrupt::None, gap_ns: r.range(0, 300), write_gap_ns: 0, under_reader: false, wait_calls: 0 };
                 if i > 0 && r.chance(70) {
                     inc.corrupt_before = gen_corruption(&mut r, false);
                 }
@@ -415,13 +431,13 @@ pub fn gen_config(profile: Profile, run_seed: u64, index: u64) -> ACfg {
             }
             for j in 0..chunk {
                 let g = (base + j) as u16;
-                let mut inc = IncCfg { writes: 1, kill_at: None, io_err: None, corrupt_before: Corrupt::SetValid { gen: g }, gap_ns: 0, write_gap_ns: 0, under_reader: false };
+                let mut inc = IncCfg { writes: 1, kill_at: None, io_err: None, corrupt_before: Corrupt::SetValid { gen: g }, gap_ns: 0, write_gap_ns: 0, under_reader: false, wait_calls: 0 };
                 if with_kill {
                     // kill inside the single write, then a second incarnation completes an update
                     let at = if g == 0 { NEW_POINTS_WIPE } else { NEW_POINTS_VALID } + if pass == 2 { WRITE_POINTS - 1 } else { r.below(WRITE_POINTS as u64) as u32 };
                     inc.kill_at = Some(at);
                     cfg.incs.push(inc);
-                    cfg.incs.push(IncCfg { writes: 1, kill_at: None, io_err: None, corrupt_before: Corrupt::None, gap_ns: 0, write_gap_ns: 0, under_reader: false });
+                    cfg.incs.push(IncCfg { writes: 1, kill_at: None, io_err: None, corrupt_before: Corrupt::None, gap_ns: 0, write_gap_ns: 0, under_reader: false, wait_calls: 0 });
                 } else {
                     cfg.incs.push(inc);
                 }
@@ -431,9 +447,27 @@ pub fn gen_config(profile: Profile, run_seed: u64, index: u64) -> ACfg {
             cfg.repeat_pct = 0;
             // second half of the profile: the reader's first call races with a burst of three
             // publications (its retry loop runs), then it sleeps through 32767 - k publications
-            let raced = (index / 7) % 2 == 1;
+            // groups of seven runs: plain, raced, raced with a directed preemption (at least one
+            // publication completes between the two generation loads of the client's first call),
+            // and plain with a writer death and restart inside the sleeping window
+            let group = (index / 7) % 4;
+            let raced = group == 1 || group == 2;
+            let death = group == 3;
             let burst = if raced { 3 } else { 1 };
-            let n = if raced { *[32764u32, 32765, 32766, 32767, 65532, 65533, 3][..].get((index % 7) as usize).unwrap() } else { *[32766u32, 32767, 32768, 65534, 65535, 1, 2][..].get((index % 7) as usize).unwrap() };
+            let i7 = (index % 7) as usize;
+            // directed: the client's first generation load follows the j-th publication of the
+            // burst, k further publications complete during its copy, and it sleeps until the
+            // generation it loaded first is live again
+            let jk = [(0u32, 1u32), (0, 2), (0, 3), (1, 1), (1, 2), (2, 1), (0, 1)][i7];
+            let n = if group == 2 {
+                32764 + jk.0 + if i7 == 6 { 32767 } else { 0 }
+            } else if raced {
+                [32764u32, 32765, 32766, 32767, 65532, 65533, 3][i7]
+            } else if death {
+                [32766u32, 32765, 32767, 65533, 32766, 65534, 3][i7]
+            } else {
+                [32766u32, 32767, 32768, 65534, 65535, 1, 2][i7]
+            };
             cfg.switch_ppm = 300_000;
             cfg.pct_depth = 0;
             cfg.weak = false;
@@ -442,11 +476,26 @@ pub fn gen_config(profile: Profile, run_seed: u64, index: u64) -> ACfg {
             cfg.max_steps = 3_000_000;
             let g0 = gen_biased(&mut r) & !1;
             cfg.init = Corrupt::SetValid { gen: if g0 == 0 { 2 } else { g0 } };
-            cfg.incs.push(IncCfg { writes: burst + n + 1, kill_at: None, io_err: None, corrupt_before: Corrupt::None, gap_ns: 0, write_gap_ns: 0, under_reader: false });
+            if death {
+                // the writer dies inside its (burst + d + 1)-th update; its successor takes over
+                // in place and completes the remaining publications
+                let d = (r.range(2, 9) as u32).min(n.saturating_sub(1)).max(1);
+                let at = NEW_POINTS_VALID + (burst + d) * WRITE_POINTS + 1 + 2 + r.below(9) as u32;
+                cfg.incs.push(IncCfg { writes: burst + d + 1, kill_at: Some(at), io_err: None, corrupt_before: Corrupt::None, gap_ns: 0, write_gap_ns: 0, under_reader: false, wait_calls: 0 });
+                cfg.incs.push(IncCfg { writes: n + 1 - d, kill_at: None, io_err: None, corrupt_before: Corrupt::None, gap_ns: 0, write_gap_ns: 0, under_reader: false, wait_calls: 0 });
+            } else {
+                cfg.incs.push(IncCfg { writes: burst + n + 1, kill_at: None, io_err: None, corrupt_before: Corrupt::None, gap_ns: 0, write_gap_ns: 0, under_reader: false, wait_calls: 0 });
+            }
+            if group == 2 {
+                // when the writer is about to open its (j+1)-th update the client (just woken) runs
+                // three accesses: version, generation (even, j publications done), first field;
+                // at the client's re-check the writer runs for k updates' worth of accesses
+                cfg.preempts = vec![(0, true, LOC_GEN as u8, 2 * jk.0 + 1, 1, 3), (1, false, LOC_GEN as u8, 2, 0, WRITE_POINTS * jk.1 + r.below(6) as u32)];
+            }
             cfg.readers.push(ReaderCfg {
                 // first call while the writer pauses after its first publication (or, raced, while
                 // the initial burst is being published)
-                start_ns: if raced { r.range(60, 420) } else { 2_000 },
+                start_ns: if group == 2 { 25 + 120 * jk.0 as i64 } else if raced { r.range(60, 420) } else { 2_000 },
                 retry_ns: 50,
                 max_open_tries: 40,
                 calls: vec![CallCfg { gap_ns: 0, sync_before: false }, CallCfg { gap_ns: 0, sync_before: false }, CallCfg { gap_ns: 10_000, sync_before: false }],
@@ -454,7 +503,57 @@ pub fn gen_config(profile: Profile, run_seed: u64, index: u64) -> ACfg {
                 probe_apis: false,
                 reopen_each_call: false,
                 burst,
+                hammer: 0,
             });
+        }
+        Profile::Marathon => {
+            cfg.weak = false;
+            cfg.stale_ppm = 0;
+            cfg.pct_depth = 0;
+            cfg.field_perm = false;
+            cfg.switch_ppm = *r.pick(&[300_000u32, 500_000]);
+            let g0 = gen_biased(&mut r) & !1;
+            cfg.init = Corrupt::SetValid { gen: if g0 == 0 { 2 } else { g0 } };
+            let quiet_call = CallCfg { gap_ns: 0, sync_before: false };
+            match index % 3 {
+                0 => {
+                    // thousands of consecutive updates with one and the same record, each of the
+                    // three stored statuses in turn
+                    cfg.repeat_pct = 100;
+                    cfg.first_k = 1 + (index / 3) as i64 % 3;
+                    cfg.max_steps = 2_000_000;
+                    cfg.incs.push(IncCfg { writes: r.range(4_200, 4_600) as u32, kill_at: None, io_err: None, corrupt_before: Corrupt::None, gap_ns: 0, write_gap_ns: 0, under_reader: false, wait_calls: 0 });
+                    let mut rd = gen_reader(&mut r, 6, false);
+                    for c in rd.calls.iter_mut() {
+                        c.gap_ns = r.range(1_000, 400_000);
+                    }
+                    cfg.readers.push(rd);
+                }
+                1 => {
+                    // one client answers from its cache a million times, sleeps through exactly
+                    // 32767 updates (same generation, other record) and goes on calling
+                    cfg.repeat_pct = 0;
+                    cfg.max_steps = 140_000_000;
+                    let n = 32_767u32;
+                    // (no further update: the writer stays idle while the client goes on calling)
+                    cfg.incs.push(IncCfg { writes: 1 + n, kill_at: None, io_err: None, corrupt_before: Corrupt::None, gap_ns: 0, write_gap_ns: 0, under_reader: false, wait_calls: 0 });
+                    let mut calls = vec![quiet_call.clone(), quiet_call.clone()];
+                    calls.extend((0..64).map(|_| quiet_call.clone()));
+                    cfg.readers.push(ReaderCfg { start_ns: 2_000, retry_ns: 50, max_open_tries: 40, calls, sleep_pubs: n, probe_apis: false, reopen_each_call: false, burst: 1, hammer: (1 << 20) - 24 - r.below(16) as u32 });
+                }
+                _ => {
+                    // the writer dies inside an update; one client polls tens of thousands of times
+                    // during the outage; the restarted daemon completes an update and dies inside
+                    // the next one while that client is copying
+                    cfg.repeat_pct = 0;
+                    cfg.max_steps = 140_000_000;
+                    let hammer = *r.pick(&[62_600u32, 66_000, 131_200]);
+                    cfg.incs.push(IncCfg { writes: 2, kill_at: Some(NEW_POINTS_VALID + WRITE_POINTS + 1 + 2 + r.below(9) as u32), io_err: None, corrupt_before: Corrupt::None, gap_ns: 0, write_gap_ns: 2_000, under_reader: false, wait_calls: 0 });
+                    cfg.incs.push(IncCfg { writes: 2, kill_at: Some(NEW_POINTS_VALID + WRITE_POINTS + 1 + 2 + r.below(9) as u32), io_err: None, corrupt_before: Corrupt::None, gap_ns: 0, write_gap_ns: r.range(20, 160), under_reader: false, wait_calls: 1 + hammer });
+                    let calls: Vec<CallCfg> = (0..400).map(|_| quiet_call.clone()).collect();
+                    cfg.readers.push(ReaderCfg { start_ns: 1_000, retry_ns: 50, max_open_tries: 40, calls, sleep_pubs: 0, probe_apis: false, reopen_each_call: false, burst: 1, hammer });
+                }
+            }
         }
         Profile::Flood => {
             cfg.repeat_pct = 0;
@@ -468,7 +567,7 @@ pub fn gen_config(profile: Profile, run_seed: u64, index: u64) -> ACfg {
             // the writer's quantum is not a multiple of its 12-step update, so the phase at which the
             // reader's calls begin drifts until one starts on an even generation
             cfg.pingpong = vec![*r.pick(&[13u32, 13, 17]), r.range(8, 10) as u32];
-            cfg.incs.push(IncCfg { writes: u32::MAX, kill_at: None, io_err: None, corrupt_before: Corrupt::None, gap_ns: 0, write_gap_ns: 0, under_reader: false });
+            cfg.incs.push(IncCfg { writes: u32::MAX, kill_at: None, io_err: None, corrupt_before: Corrupt::None, gap_ns: 0, write_gap_ns: 0, under_reader: false, wait_calls: 0 });
             let mut rd = gen_reader(&mut r, 2, false);
             rd.start_ns = 0;
             rd.retry_ns = 20;
@@ -494,7 +593,7 @@ pub fn gen_config(profile: Profile, run_seed: u64, index: u64) -> ACfg {
             // die inside the last write: right after the odd generation store, or part-way through
             // the record (so that a copy taken meanwhile is a blend)
             let at = NEW_POINTS_VALID + (w - 1) * WRITE_POINTS + 2 + r.below(9) as u32;
-            cfg.incs.push(IncCfg { writes: w, kill_at: Some(at), io_err: None, corrupt_before: Corrupt::None, gap_ns: 0, write_gap_ns: 0, under_reader: false });
+            cfg.incs.push(IncCfg { writes: w, kill_at: Some(at), io_err: None, corrupt_before: Corrupt::None, gap_ns: 0, write_gap_ns: 0, under_reader: false, wait_calls: 0 });
             if index % 4 == 3 {
                 // a third party damages the header while the first client is between its first
                 // generation load and the re-check; the restarted daemon re-initialises the file
@@ -509,6 +608,7 @@ pub fn gen_config(profile: Profile, run_seed: u64, index: u64) -> ACfg {
                     gap_ns: 0,
                     write_gap_ns: 0,
                     under_reader: true,
+                    wait_calls: 0,
                 };
                 cfg.preempts = vec![(1, false, LOC_GEN as u8, 2 + r.below(2) as u32, 0, 4000)];
                 cfg.switch_ppm = *r.pick(&[300_000u32, 50_000]);
@@ -702,6 +802,8 @@ struct PubInfo {
     k: i64,
     gen_after: u16,
     inc: u32,
+    /// the generation the documented arithmetic gives after this publication
+    model_after: Option<u16>,
 }
 
 #[derive(Default, Clone, Debug)]
@@ -727,6 +829,8 @@ struct ReaderState {
     tid: u32,
     last_idx: i64,
     last_gen: Option<u16>,
+    /// documented generation of the publication the cached record belongs to
+    last_model: Option<u16>,
     call: CallState,
     calls_done: u32,
     distinct_results: u32,
@@ -770,6 +874,11 @@ pub struct AState {
     third_party: bool,
     /// the daemon has begun to re-create the file and has not published into it yet
     recreating: bool,
+    /// the generation according to the documented arithmetic (+1 to open an update from an even
+    /// value, +1 to close it, 0 skipped, 0 after a re-creation); None while the file holds
+    /// content injected by the environment
+    model_gen: Option<u16>,
+    init_gen: Option<u16>,
     max_loads_in_call: u64,
     sample_hist: Vec<Value>,
     /// no corruption in this run: the backing file keeps its inode, so one descriptor serves all reads
@@ -814,6 +923,8 @@ impl AState {
             content_untrusted: false,
             third_party: false,
             recreating: false,
+            model_gen: None,
+            init_gen: None,
             max_loads_in_call: 0,
             sample_hist: Vec::new(),
             stable_file: false,
@@ -864,6 +975,14 @@ impl AState {
         self.w_gen_stores.clear();
         self.w_field_stores = 0;
         self.w_gen_at_begin = if self.stable_file && self.live_gen.is_some() { self.live_gen } else { self.live_header().map(|h| h.generation) };
+        if self.model_gen.is_none() && !self.content_untrusted {
+            self.model_gen = self.w_gen_at_begin;
+        }
+        if let Some(g) = self.model_gen {
+            if g & 1 == 0 {
+                self.model_gen = Some(g.wrapping_add(1));
+            }
+        }
         for r in self.readers.iter_mut() {
             if r.call.active {
                 r.call.writer_began_during = true;
@@ -904,7 +1023,14 @@ impl AState {
         if g0 == 0 {
             self.out.probe("probe.first_update_from_zero");
         }
-        self.published.push(PubInfo { k, gen_after: gen_now, inc: self.cur_inc });
+        if let Some(g) = self.model_gen {
+            let mut e = g.wrapping_add(1);
+            if e == 0 {
+                e = 2;
+            }
+            self.model_gen = Some(e);
+        }
+        self.published.push(PubInfo { k, gen_after: gen_now, inc: self.cur_inc, model_after: self.model_gen });
         self.in_flight = None;
         self.any_published = true;
         self.seg_published = true;
@@ -992,6 +1118,16 @@ impl AState {
         if c.loads > MAX_ACCESSES_PER_CALL {
             self.out.violate(&["C18"], "unbounded_call", "loads>1e8".into(), format!("snapshot() performed {} shared accesses", c.loads));
         }
+        // C02, whatever happened to the file: a copy is only ever accepted against an even
+        // generation (the re-check that validates it is the call's last generation load)
+        if res.is_ok() && c.copies >= 1 {
+            match c.last_gen_load {
+                Some(g) if g & 1 == 1 => {
+                    self.out.violate(&["C02", "C01", "C05", "C06"], "copy_accepted_under_odd_generation", format!("weak={}", self.weak), format!("reader {ri} returned a freshly copied record although the generation it last loaded was {g} (an update was in flight)"));
+                }
+                _ => self.out.probe("judged.accepted_copies_validated_by_even_generation"),
+            }
+        }
         if self.third_party {
             self.out.probe("probe.call_over_file_overwritten_under_client_returned");
             self.out.nontrivial.insert("C18");
@@ -1008,7 +1144,9 @@ impl AState {
                     self.out.probe("probe.call_began_with_odd_generation");
                     self.out.nontrivial.insert("C18");
                 }
-                if c.loads > 2 {
+                // (answering from the cache when the generation is the cached one is an optimisation,
+                // not a promise: only the odd / zero cases are "instead of waiting")
+                if c.loads > 2 && (g == 0 || g & 1 == 1) {
                     self.out.violate(
                         &["C18"],
                         "waited_on_writer",
@@ -1090,8 +1228,17 @@ impl AState {
         let quiet = !c.inflight_at_begin && !c.writer_began_during && self.in_flight.is_none() && c.pubs_at_begin == self.published.len();
         let judged = quiet && (!self.weak || c.synced) && c.version_at_begin != 0 && c.live_gen_at_begin != 0;
         if judged && self.any_published {
-            let exception = rs.last_gen.is_some() && rs.last_gen == Some(c.live_gen_at_begin) && rs.last_idx != newest;
-            let expect = if exception { rs.last_idx } else { newest };
+            // the documented collision: the generation is again the one the cached record was
+            // validated against. Judged on the documented arithmetic where it is known, so that a
+            // writer whose counter collides early or late does not excuse the client.
+            let collision = match (self.model_gen, rs.last_model) {
+                (Some(m), Some(l)) => m == l,
+                _ => rs.last_gen == Some(c.live_gen_at_begin),
+            };
+            let exception = rs.last_gen.is_some() && collision && rs.last_idx != newest;
+            // (under the documented generation collision the client may answer from its cache; it
+            // may just as well have looked and found the newest record)
+            let expect = if exception && idx != newest { rs.last_idx } else { newest };
             if exception {
                 self.out.probe("probe.wrap_exception_applied");
             }
@@ -1118,6 +1265,7 @@ impl AState {
         if kills > 0 && self.published.iter().any(|p| p.k == idx && p.inc > 0) {
             self.out.nontrivial.insert("C04");
         }
+        let model_of = if idx == 0 { match self.init_gen { Some(g) => Some(g), None => None } } else { self.published.iter().rev().find(|p| p.k == idx).and_then(|p| p.model_after) };
         let r = &mut self.readers[ri];
         if idx != r.last_idx {
             r.distinct_results += 1;
@@ -1129,6 +1277,7 @@ impl AState {
         // the generation the accepted record was validated against
         if c.copies > 0 {
             r.last_gen = c.last_gen_load;
+            r.last_model = model_of;
         }
         self.hist(json!({"reader": ri, "got": idx, "newest": newest, "copies": c.copies}));
     }
@@ -1229,6 +1378,7 @@ impl Observer for AObserver {
                         // re-creation is interrupted
                         s.content_untrusted = false;
                         s.recreating = true;
+                        s.model_gen = Some(0);
                         s.out.probe("probe.wipe_of_unusable_file");
                         if s.readers.iter().any(|r| r.call.active && r.call.gen_loads >= 1) {
                             s.out.probe("probe.wipe_during_client_copy");
@@ -1548,7 +1698,18 @@ fn reader_thread(ri: usize, cfg: ReaderCfg, path: PathBuf, st: Arc<Mutex<AState>
             verif_rt::mark("r:end", ri as u64, ci as u64, code);
             let failed = res.is_err();
             st.lock().unwrap().call_end(ri, res);
-            if failed && cfg.calls.len() > 8 {
+            if ci == 0 && cfg.hammer > 0 {
+                for _ in 0..cfg.hammer {
+                    st.lock().unwrap().call_begin(ri, false);
+                    let res = match rd.snapshot() {
+                        Ok(c) => Ok(decode_ceb(c)),
+                        Err(e) => Err(err_name(err_kind(&e).0).to_string()),
+                    };
+                    st.lock().unwrap().call_end(ri, res);
+                }
+                continue;
+            }
+            if failed && cfg.calls.len() > 8 && cfg.hammer == 0 {
                 // flood profile: one exhausted retry budget is the scenario
                 break;
             }
@@ -1564,7 +1725,7 @@ fn reader_thread(ri: usize, cfg: ReaderCfg, path: PathBuf, st: Arc<Mutex<AState>
 }
 
 fn writer_host(cfg: ACfg, path: PathBuf, st: Arc<Mutex<AState>>, wake_tx: Option<verif_rt::mpsc::Sender<()>>) {
-    let mut next_k: i64 = 1;
+    let mut next_k: i64 = cfg.first_k.max(1);
     let mut rep_rng = Rng::new(cfg.hash_seed ^ 0x5EED);
     let sleep_pubs = cfg.readers.first().map(|r| r.sleep_pubs).unwrap_or(0);
     let burst = cfg.readers.first().map(|r| r.burst.max(1)).unwrap_or(1);
@@ -1604,6 +1765,8 @@ fn writer_host(cfg: ACfg, path: PathBuf, st: Arc<Mutex<AState>>, wake_tx: Option
                 s.published.clear();
                 s.in_flight = None;
                 s.content_untrusted = !matches!(inc.corrupt_before, Corrupt::SetValid { .. });
+                s.model_gen = match inc.corrupt_before { Corrupt::SetValid { gen } => Some(gen), _ => None };
+                s.init_gen = s.model_gen;
                 if !matches!(inc.corrupt_before, Corrupt::SetValid { .. }) {
                     s.out.nontrivial.insert("C16");
                 }
@@ -1613,6 +1776,13 @@ fn writer_host(cfg: ACfg, path: PathBuf, st: Arc<Mutex<AState>>, wake_tx: Option
             apply_corruption(&path, &inc.corrupt_before);
             verif_rt::shm::files_changed();
             verif_rt::mark("env:corrupt", i as u64, 0, 0);
+        }
+        if inc.wait_calls > 0 {
+            let mut polls = 0;
+            while (st.lock().unwrap().readers.first().map(|r| r.calls_done).unwrap_or(u32::MAX)) < inc.wait_calls && polls < 2_000_000 {
+                verif_rt::sleep_ns(2_000);
+                polls += 1;
+            }
         }
         st.lock().unwrap().inc_begin(i as u32);
         verif_rt::mark("inc:begin", i as u64, 0, 0);
@@ -1637,7 +1807,7 @@ fn writer_host(cfg: ACfg, path: PathBuf, st: Arc<Mutex<AState>>, wake_tx: Option
                 if inc.writes == u32::MAX && st.lock().unwrap().readers_finished as usize >= cfg.readers.len() {
                     break;
                 }
-                let k = if next_k > 1 && rep_rng.chance(cfg.repeat_pct) {
+                let k = if next_k > cfg.first_k.max(1) && rep_rng.chance(cfg.repeat_pct) {
                     // same content as the last record handed to write() (possibly one whose update was
                     // interrupted by a kill)
                     next_k - 1
@@ -1684,8 +1854,14 @@ fn writer_host(cfg: ACfg, path: PathBuf, st: Arc<Mutex<AState>>, wake_tx: Option
                     }
                 }
                 if sleep_pubs > 0 && pubs_total == burst {
-                    // give the reader time to take its first snapshot
+                    // give the reader time to take its first snapshot (and to finish hammering)
                     verif_rt::sleep_ns(5_000);
+                    let hammer = cfg.readers.first().map(|r| r.hammer).unwrap_or(0);
+                    let mut polls = 0;
+                    while hammer > 0 && st.lock().unwrap().readers.first().map(|r| r.calls_done).unwrap_or(u32::MAX) < 1 + hammer && polls < 2_000_000 {
+                        verif_rt::sleep_ns(100_000);
+                        polls += 1;
+                    }
                 }
                 if inc.write_gap_ns > 0 {
                     verif_rt::sleep_ns(inc.write_gap_ns);
@@ -1733,6 +1909,11 @@ pub fn run(cfg: &ACfg, run_seed: u64, replay: Option<Vec<u32>>, trace: bool, san
     apply_corruption(&path, &cfg.init);
     let st = Arc::new(Mutex::new(AState::new(path.clone(), cfg.weak, cfg.readers.len())));
     st.lock().unwrap().content_untrusted = !matches!(cfg.init, Corrupt::None | Corrupt::SetValid { .. });
+    if let Corrupt::SetValid { gen } = cfg.init {
+        let mut s = st.lock().unwrap();
+        s.model_gen = Some(gen);
+        s.init_gen = Some(gen);
+    }
     st.lock().unwrap().stable_file = matches!(cfg.init, Corrupt::SetValid { .. }) && cfg.incs.iter().all(|i| i.corrupt_before == Corrupt::None);
     let mut faults = Vec::new();
     for (i, inc) in cfg.incs.iter().enumerate() {
